@@ -9,7 +9,8 @@
 From Coq Require Import ZArith Znumtheory List Bool Lia.
 From GmsmVerif Require Import Lib.Outcome EC.ECAffine EC.SM2Curve EC.ECAffineProofs EC.JacFormulas
   EC.P256Model EC.P256Proofs EC.P256Instance EC.WnafProofs EC.BaseMultProofs EC.TableCheck EC.C03Final
-  EC.LimbModel EC.LimbProofs Gen.P256Limbs
+  EC.LimbModel EC.LimbProofs EC.LimbReduceDefs EC.LimbUnpack EC.LimbStepEven EC.LimbStepOdd EC.LimbStepLast
+  EC.LimbReduceFinal EC.LimbOld EC.LimbRefine Gen.P256Limbs
   Gen.SM2Params Gen.P256Tables.
 Import ListNotations.
 Open Scope Z_scope.
@@ -307,6 +308,86 @@ Proof.
   split; [apply FromBig_loose|]. split; assumption.
 Qed.
 Print Assumptions C03_limb_FromBig_ToBig.
+
+(* ---- sm2P256ReduceDegree (Montgomery reduction), the function in which defect D36 lived ---------------------------
+   unpack (17 x uint64 -> 18 x uint32, value preserved) ; 9 elimination steps ; repack + ReduceCarry.
+   One elimination step, as a statement over the RELATIVE window, for EVERY window within the bound invariant PE / PO
+   (EC/LimbReduceDefs.v): no uint32 operation wraps, the lowest limb becomes 0, x*p is added to the value of the
+   window, and the results satisfy the invariant of the next step.  All 33 paths through the borrow logic
+   (`< 0x20000000` / `< 0x10000000` tests, set4/set7 resp. set5/set8/set9, `&& x > 1`) are executed symbolically. *)
+Theorem C03_limb_elimination_step_even : forall t0 t1 t2 t3 t4 t5 t6 t7 t8 t9 : N,
+  PE t0 t1 t2 t3 t4 t5 t6 t7 t8 t9 ->
+  even_post t0 t1 t2 t3 t4 t5 t6 t7 t8 t9 (gen_rd_step_even t0 t1 t2 t3 t4 t5 t6 t7 t8 t9).
+Proof. exact gen_rd_step_even_correct. Qed.
+Print Assumptions C03_limb_elimination_step_even.
+
+Theorem C03_limb_elimination_step_odd : forall t1 t2 t3 t4 t5 t6 t7 t8 t9 t10 : N,
+  PO t1 t2 t3 t4 t5 t6 t7 t8 t9 t10 ->
+  odd_post t1 t2 t3 t4 t5 t6 t7 t8 t9 t10 (gen_rd_step_odd t1 t2 t3 t4 t5 t6 t7 t8 t9 t10).
+Proof. exact gen_rd_step_odd_correct. Qed.
+Print Assumptions C03_limb_elimination_step_odd.
+
+(* D36: the step theorem is FALSE for the even step as it was before the repair a3cb9c3 (EC/LimbOld.v, the same
+   translator run on the old source): the window (1,0,...,0) is within PE, the old step leaves 2^32-1 in limb 9 and
+   its value is off by 2^32 * 2^257; the repaired step satisfies the post-condition on the same window. *)
+Theorem C03_limb_D36_old_step_refuted :
+  exists t0 t1 t2 t3 t4 t5 t6 t7 t8 t9 : N,
+    PE t0 t1 t2 t3 t4 t5 t6 t7 t8 t9 /\
+    (let '(o0, o1, o2, o3, o4, o5, o6, o7, o8, o9) := reduce_step_even_old t0 t1 t2 t3 t4 t5 t6 t7 t8 t9 in
+     o9 = 4294967295%N /\
+     value10e o0 o1 o2 o3 o4 o5 o6 o7 o8 o9 =
+       (value10e t0 t1 t2 t3 t4 t5 t6 t7 t8 t9 + (t0 mod 536870912) * pN + 2 ^ 32 * 2 ^ 257)%N) /\
+    ~ even_post t0 t1 t2 t3 t4 t5 t6 t7 t8 t9 (reduce_step_even_old t0 t1 t2 t3 t4 t5 t6 t7 t8 t9) /\
+    even_post t0 t1 t2 t3 t4 t5 t6 t7 t8 t9 (gen_rd_step_even t0 t1 t2 t3 t4 t5 t6 t7 t8 t9).
+Proof. exact reduce_step_even_old_refuted. Qed.
+Print Assumptions C03_limb_D36_old_step_refuted.
+
+(* the whole function, for every 17-word input with words < 2^63 and top word < 2^60 (what the products deliver):
+   loose result, value(out) * 2^257 = value64(b) (mod p).  The bound side conditions of all nine steps are discharged
+   (EC/LimbReduceFinal.v gen_rd_eliminate_correct): nothing is assumed about reachable tmp values. *)
+Theorem C03_limb_ReduceDegree : forall b : list N, largeOK b ->
+  looseL (sm2P256ReduceDegree_limbs b) /\
+  (limbs_valueN (sm2P256ReduceDegree_limbs b) * 2 ^ 257) mod sm2_p = large_valueN b mod sm2_p.
+Proof. exact ReduceDegree_limbs_correct. Qed.
+Print Assumptions C03_limb_ReduceDegree.
+
+Theorem C03_limb_Mul_Square : forall a b : list N, looseL a -> looseL b ->
+  (looseL (sm2P256Mul_limbs a b) /\
+   (limbs_valueN (sm2P256Mul_limbs a b) * 2 ^ 257) mod sm2_p = (limbs_valueN a * limbs_valueN b) mod sm2_p) /\
+  (looseL (sm2P256Square_limbs a) /\
+   (limbs_valueN (sm2P256Square_limbs a) * 2 ^ 257) mod sm2_p = (limbs_valueN a * limbs_valueN a) mod sm2_p).
+Proof. intros a b Ha Hb. split; [apply Mul_limbs_correct|apply Square_limbs_correct]; assumption. Qed.
+Print Assumptions C03_limb_Mul_Square.
+
+(* ---- connection: the limb layer refines the F_p-level model that items 2-5 are about -------------------------------
+   fe = sm2P256ToBig (value * RInverse mod p).  Each limb function commutes with fe on loose operands and returns loose
+   limbs; hence every straight-line program over them (fexpr: Add, Sub, Mul, Square, Scalar k, constants) computes on
+   limbs a representation of what the F_p-level model computes - instantiated for sm2P256PointDouble. *)
+Theorem C03_limb_refines_Fp_model : forall a b : list N, looseL a -> looseL b ->
+  (looseL (sm2P256Add_limbs a b) /\ fe (sm2P256Add_limbs a b) = AddFe_model (fe a) (fe b)) /\
+  (looseL (sm2P256Sub_limbs a b) /\ fe (sm2P256Sub_limbs a b) = SubFe_model (fe a) (fe b)) /\
+  (looseL (sm2P256Mul_limbs a b) /\ fe (sm2P256Mul_limbs a b) = Mul_model (fe a) (fe b)) /\
+  (looseL (sm2P256Square_limbs a) /\ fe (sm2P256Square_limbs a) = Square_model (fe a)) /\
+  (forall x : Z, looseL (sm2P256FromBig_limbs x) /\ fe (sm2P256FromBig_limbs x) = FromBig_model x).
+Proof.
+  intros a b Ha Hb. split; [apply fe_Add; assumption|]. split; [apply fe_Sub; assumption|].
+  split; [apply fe_Mul; assumption|]. split; [apply fe_Square; assumption|]. exact fe_FromBig.
+Qed.
+Print Assumptions C03_limb_refines_Fp_model.
+
+Theorem C03_limb_programs_refine : forall (rho : nat -> list N) (e : fexpr),
+  (forall i, looseL (rho i)) -> scalars_ok e ->
+  looseL (eval_limbs rho e) /\ fe (eval_limbs rho e) = eval_fe (fun i => fe (rho i)) e.
+Proof. exact fexpr_refines. Qed.
+Print Assumptions C03_limb_programs_refine.
+
+Theorem C03_limb_PointDouble_refines : forall X Y Z : list N, looseL X -> looseL Y -> looseL Z ->
+  let rho := fun i => match i with 0%nat => X | 1%nat => Y | _ => Z end in
+  (looseL (eval_limbs rho pd_x3) /\ looseL (eval_limbs rho pd_y3) /\ looseL (eval_limbs rho pd_z3)) /\
+  (fe (eval_limbs rho pd_x3), fe (eval_limbs rho pd_y3), fe (eval_limbs rho pd_z3)) =
+  PointDouble_model (fe X, fe Y, fe Z).
+Proof. exact PointDouble_limbs_refines. Qed.
+Print Assumptions C03_limb_PointDouble_refines.
 
 Example C03_limb_examples :
   sm2P256Add_limbs [1; 0; 0; 0; 0; 0; 0; 0; 536870911]%N [536870911; 268435455; 0; 0; 0; 0; 0; 0; 536870911]%N
